@@ -20,6 +20,7 @@ from pdfminer import pdfexceptions, settings
 from pdfminer.ascii85 import ascii85decode, asciihexdecode
 from pdfminer.ccitt import ccittfaxdecode
 from pdfminer.lzw import lzwdecode
+from pdfminer.psexceptions import PSException
 from pdfminer.psparser import LIT, PSObject
 from pdfminer.runlength import rldecode
 from pdfminer.utils import apply_png_predictor, apply_tiff_predictor
@@ -339,9 +340,32 @@ class PDFStream(PDFObject):
 
         resolved_filters = [resolve1(f) for f in filters]
         resolved_params = [resolve1(param) for param in params]
+        # Parameters that are not a dictionary (e.g. null) mean "no parameters".
+        resolved_params = [p if isinstance(p, dict) else {} for p in resolved_params]
         return list(zip(resolved_filters, resolved_params))
 
     def decode(self) -> None:
+        try:
+            self._decode()
+        except PSException:
+            raise
+        except (
+            ArithmeticError,
+            LookupError,
+            RuntimeError,
+            StopIteration,
+            TypeError,
+            ValueError,
+        ) as e:
+            # The decoders signal corrupt data in many ways (IndexError,
+            # binascii.Error, "generator raised StopIteration", ...).
+            if settings.STRICT:
+                raise PDFValueError(f"Invalid stream data: {e!r}")
+            logger.warning("Invalid stream data in %r: %r", self, e)
+            self.data = b""
+            self.rawdata = None
+
+    def _decode(self) -> None:
         assert self.data is None and self.rawdata is not None, str(
             (self.data, self.rawdata),
         )
